@@ -222,6 +222,9 @@ def run_threads(case):
         hs_len[0] = len(net.sockets[0].sent)
         if case.get("accept"):
             net.sockets[0].accept = list(case["accept"])  # short writes start after the handshake (handshake writes are C10's subject)
+        if case.get("stall"):
+            # after some bytes the transport answers "would block" for a while (longer or shorter than the socket timeout)
+            net.sockets[0].stall_after, net.sockets[0].stall_for = case["stall"]
         ths = []
         fth = simkit.FakeThreading(sched)
         for i, msgs in enumerate(senders):
@@ -328,6 +331,8 @@ msg = st.tuples(st.sampled_from(["text", "binary", "ping"]), st.just(""), st.sam
 def thread_cases(draw):
     mode = draw(st.sampled_from(["senders", "senders", "receivers", "mixed", "frame-receivers"]))
     c = {"mode": mode, "choices": draw(st.lists(st.integers(0, 3), max_size=60)), "entry": draw(st.sampled_from(["WebSocket", "WebSocket", "create_connection"]))}
+    if mode == "senders" and draw(st.integers(0, 2)) == 0:  # (not with a server that hangs up while a send is still stalled)
+        c["stall"] = [draw(st.sampled_from([0, 3, 10, 100, 3000])), draw(st.sampled_from([0.5, 2.0, 7.0, 20.0]))]
     if draw(st.integers(0, 2)):
         c["preempt"] = {str(draw(st.integers(1, 2500))): draw(st.integers(1, 3)) for _ in range(draw(st.integers(1, 3)))}
     if mode in ("senders", "mixed"):
@@ -421,6 +426,7 @@ def jobs(tier, seed):
     for i in range(shards):
         out.append({"name": f"hyp-t-{i}", "kind": "hyp-t", "seed": seed * 1000 + i, "n": n // shards})
     out.append({"name": "hyp-p", "kind": "hyp-p", "seed": seed * 1000 + 99, "n": 400 if tier == "quick" else 16000})
+    out += [{"name": f"structured-{i}", "kind": "structured", "shard": i, "of": 4} for i in range(4)]
     stride = 16
     for fi in range(len(FIXED)):
         for sh in range(4 if tier == "quick" else 16):
@@ -438,6 +444,17 @@ def run_job(job, coll):
             for ci, parts in enumerate(compositions(flen)):
                 coll.check({"mode": "partial", "payload": payload, "accept": parts, "op": 2, "dispatcher": (None, "plain", "ssl", "wrapped")[(ci + n) % 4]}, run_case)
         coll.exhaustive["(A) all short-write compositions for frames of 6..11 bytes"] = True
+    elif k == "structured":
+        from ..sizes import structured
+
+        for i, n in enumerate(structured(300000)):
+            if i % job["of"] != job["shard"] or n < 100:
+                continue
+            payload = {"rep": bytes([i & 0xFF, 0x5A, 1]), "n": n}
+            # the whole frame in one write, in MSS-sized writes, in 4 KiB writes
+            for accept in ([n + 64], [1460] * (n // 1460 + 2), [4096] * (n // 4096 + 2)):
+                coll.check({"mode": "partial", "payload": payload, "accept": accept, "op": 2, "dispatcher": (None, "plain", "wrapped")[i % 3]}, run_case)
+        coll.exhaustive["(A') structured frame sizes up to 300000 under whole / MSS-sized / 4 KiB writes"] = True
     elif k == "hyp-t":
         hyp_run(coll, thread_cases(), run_case, job["seed"], job["n"])
     elif k == "hyp-p":
